@@ -830,6 +830,100 @@ func c06R6(p *core.Prog, r *core.Report, rule string) {
 			exactOnly[fn] = true
 		}
 	}
+	// Passes written with slices.IndexFunc / ContainsFunc: the predicate literal holds the comparison,
+	// the call in the enclosing function is the pass. A loose pass must be guarded by the "not found"
+	// result of an exact pass of the same function.
+	type pass struct {
+		call  *ssa.Call
+		exact bool
+		loose *ssa.Call
+	}
+	passes := map[*ssa.Function][]pass{}
+	for _, fn := range pkgFuncs(p, "scheme/ocidir") {
+		core.Calls(fn, func(c ssa.CallInstruction) {
+			call, ok := c.(*ssa.Call)
+			cal := core.Callee(c)
+			if !ok || cal == nil || cal.Pkg() == nil || cal.Pkg().Path() != "slices" || !(strings.HasSuffix(cal.Name(), "Func")) || len(call.Call.Args) < 2 {
+				return
+			}
+			for _, lit := range hookFuncs(p, call.Call.Args[1], 0) {
+				sc, has := scans[lit]
+				if !has || (len(sc.exact) == 0 && len(sc.loose) == 0) {
+					continue
+				}
+				ps := pass{call: call, exact: len(sc.exact) > 0 && len(sc.loose) == 0}
+				if len(sc.loose) > 0 {
+					ps.loose = sc.loose[0]
+				}
+				passes[fn] = append(passes[fn], ps)
+				delete(scans, lit) // judged at the enclosing function
+			}
+		})
+	}
+	for _, fn := range sortedFuncs(func() map[*ssa.Function]bool {
+		m := map[*ssa.Function]bool{}
+		for f := range passes {
+			m[f] = true
+		}
+		return m
+	}()) {
+		fname := p.FuncName(fn)
+		lab := labeler{}
+		nExact := 0
+		for _, ps := range passes[fn] {
+			if ps.exact {
+				nExact++
+			}
+		}
+		for _, ps := range passes[fn] {
+			if ps.loose == nil {
+				continue
+			}
+			n++
+			label := lab.next("loose ref.name match " + ps.loose.Call.Value.Name())
+			ok := false
+			for _, ex := range passes[fn] {
+				if !ex.exact || !core.DominatesInstr(ex.call, ps.call) {
+					continue
+				}
+				// guarded by "the exact pass found nothing": result < 0, == -1, or !found
+				for _, g := range core.Guards(ps.call.Block()) {
+					c, pol := core.StripNot(g.Cond, g.Polarity)
+					fromExact := func(v ssa.Value) bool {
+						for _, oc := range originCalls(v) {
+							if oc == ex.call {
+								return true
+							}
+						}
+						return v == ssa.Value(ex.call)
+					}
+					if bo, isBo := c.(*ssa.BinOp); isBo {
+						k, isK := core.ConstInt(bo.Y)
+						switch {
+						case bo.Op == token.LSS && isK && k == 0 && fromExact(bo.X) && pol,
+							bo.Op == token.GEQ && isK && k == 0 && fromExact(bo.X) && !pol,
+							bo.Op == token.EQL && isK && k == -1 && fromExact(bo.X) && pol,
+							bo.Op == token.NEQ && isK && k == -1 && fromExact(bo.X) && !pol:
+							ok = true
+						}
+					} else if fromExact(c) && !pol {
+						ok = true // ContainsFunc: !found
+					}
+				}
+			}
+			if ok {
+				r.Held(rule, fname, label, p.Pos(ps.call.Pos()), "only evaluated after a complete exact pass of the same function found nothing")
+			} else if nExact == 0 {
+				r.Violated(rule, fname, label, p.Pos(ps.call.Pos()), "the function has no exact pass over the annotations at all")
+			} else {
+				r.Violated(rule, fname, label, p.Pos(ps.call.Pos()), "the loose pass is not guarded by the not-found result of the exact pass")
+			}
+		}
+		if nExact > 0 {
+			n++
+			r.Held(rule, fname, "ref.name compared exactly", p.Pos(fn.Pos()), fmt.Sprintf("%d exact pass(es) written with a predicate", nExact))
+		}
+	}
 	for _, fn := range pkgFuncs(p, "scheme/ocidir") {
 		fname := p.FuncName(fn)
 		exact, looseCalls := scans[fn].exact, scans[fn].loose
